@@ -55,6 +55,7 @@ struct LSpec {
     int v = 0;
   };
   uint64_t hash(const State& s) const { return (uint64_t)s.v * 31 + 1; }
+  bool equal(const State& a, const State& b) const { return a.v == b.v; }
   int alternatives(const Op&) const { return 1; }
   bool apply(State& s, const Op& o, int = 0) const {
     if (o.kind == L_UPDATE) {
